@@ -1,6 +1,6 @@
 SPECIFICATION Spec
 CONSTANTS MaxLen = 5
-  Pool <- Pool5
+  Pool <- Pool4U
   Starts <- StartsAll
   Xs = {1, 2}
   Nested = FALSE
